@@ -154,8 +154,11 @@ fn avc_profile_all_pairs() {
     let r = AvcProfile::try_from((p, c));
     let set1 = c & 0x40 != 0;
     match &r {
-        Ok(x) => assert!((p == 66 && set1 && *x == AvcProfile::AvcConstrainedBaseline) || (p == 66 && !set1 && *x == AvcProfile::AvcBaseline)
-                         || (p == 77 && *x == AvcProfile::AvcMain) || (p == 88 && *x == AvcProfile::AvcExtended) || (p == 100 && *x == AvcProfile::AvcHigh)),
+        Ok(x) => {
+            let expect = if p == 66 && set1 { AvcProfile::AvcConstrainedBaseline } else if p == 66 { AvcProfile::AvcBaseline }
+                         else if p == 77 { AvcProfile::AvcMain } else if p == 88 { AvcProfile::AvcExtended } else { AvcProfile::AvcHigh };
+            assert!((p == 66 || p == 77 || p == 88 || p == 100) && *x == expect, "AVC profile table");
+        }
         Err(_) => assert!(p != 66 && p != 77 && p != 88 && p != 100),
     }
     std::mem::forget(r);
